@@ -583,6 +583,20 @@ def _directed(rng):
                     out.append(c.case(['eq', op(nt), op(t)]))
                     out.append(c.case(['hasheq', op(nt), op(t)]))
                     out.append(c.case(['items', ['norm', op(nt)]]))
+            # a number that exactly CANCELS the scale of a derived unit: the normal form has no
+            # numeric item (0.001 km is m; seeded C07-h)
+            sc = c.views.units[u[1]]['scale'] if u[0] == 'u' else None
+            if sc not in (None, 0, 1):
+                t = c.mk([[_nelem(rng, 1 / F(sc)), 1], [u, 1]])
+                out.append(c.case(['items', ['norm', t]]))
+                out.append(c.case(['isnorm', ['norm', t]]))
+                for g in c.groups.values():
+                    if u[1] in g[1] and g[2]:
+                        refs = [s2 for s2 in g[1] if c.views.units[s2]['scale'] == 1]
+                        if refs:
+                            rt = c.mk([[['u', refs[0]], 1]])
+                            out.append(c.case(['eq', t, rt]))
+                            out.append(c.case(['hasheq', ['norm', t], rt]))
             if o:
                 ot = lambda e: c.mk([[['u', o], e]])           # noqa: E731
                 out += [c.case(['items', x]) for x in (
@@ -591,6 +605,24 @@ def _directed(rng):
                 out += [c.case(['eq', ['div', ut(1), ot(1)],
                                 c.mk([[_nelem(rng, c.views.units[u[1]]['scale']
                                                / c.views.units[o]['scale']), 1]])])]
+    # products of two NORMAL FORMS whose units belong to one type without conversion
+    # (K and degC, EUR and USD): the result does not depend on the order of the factors
+    # (seeded C07-i: product of normal forms flagged as normal)
+    for _ in range(6):
+        c = _Ctx(rng, 'units')
+        c.world = {'predefined': True, 'currencies': ['EUR', 'USD']}
+        c.views = W.Views(c.world)
+        for a, b in (('K', '°C'), ('EUR', 'USD'), ('°F', 'K')):
+            ta, tb = c.mk([[['u', a], 1]]), c.mk([[['u', b], rng.choice([1, 1, -1])]])
+            ex = rng.choice([None, 'm', 's'])
+            if ex:
+                ta = c.mk([[['u', a], 1], [['u', ex], -1]])
+            na, nb = ['norm', ta], ['norm', tb]
+            out.append(c.case(['eq', ['mul', na, nb], ['mul', nb, na]]))
+            out.append(c.case(['hasheq', ['mul', na, nb], ['mul', nb, na]]))
+            out.append(c.case(['items', ['norm', ['mul', na, nb]]]))
+            out.append(c.case(['items', ['norm', ['mul', nb, na]]]))
+            out.append(c.case(['eq', ['mul', na, nb], ['mul', ta, tb]]))
     return out
 
 
